@@ -50,6 +50,39 @@ type XPerson struct {
 	Addr    *XAddr   `xml:"addr" json:"addr"`
 	Notes   []XAddr  `xml:"notes>note" json:"notes"`
 	Active  bool     `xml:"active" json:"active,omitempty"`
+	// a value kept in an unexported field and encoded by marshalers declared on
+	// the pointer receiver: the standard encoders use them because the handler
+	// passes a pointer to the struct
+	Temp XTemp `xml:"temp" json:"temp"`
+}
+
+// XTemp encodes itself, through methods on the pointer receiver only.
+type XTemp struct{ milli int64 }
+
+func (t *XTemp) MarshalJSON() ([]byte, error) {
+	return []byte(`{"milli":"` + strconv.FormatInt(t.milli, 10) + `"}`), nil
+}
+
+func (t *XTemp) UnmarshalJSON(b []byte) error {
+	var v struct {
+		Milli string `json:"milli"`
+	}
+	if err := json.Unmarshal(b, &v); err != nil {
+		return err
+	}
+	n, err := strconv.ParseInt(v.Milli, 10, 64)
+	t.milli = n
+	return err
+}
+
+func (t *XTemp) MarshalText() ([]byte, error) {
+	return []byte("m" + strconv.FormatInt(t.milli, 10)), nil
+}
+
+func (t *XTemp) UnmarshalText(b []byte) error {
+	n, err := strconv.ParseInt(strings.TrimPrefix(string(b), "m"), 10, 64)
+	t.milli = n
+	return err
 }
 
 // XBlob is a document that is one long run of character data.
@@ -528,6 +561,7 @@ func bigText(t *rapid.T, label string) string {
 
 func genPerson(t *rapid.T) *XPerson {
 	p := &XPerson{ID: rapid.IntRange(-5, 99999).Draw(t, "id"), Name: bigText(t, "name"), Active: rapid.Bool().Draw(t, "active")}
+	p.Temp.milli = rapid.Int64Range(-3, 99999).Draw(t, "temp")
 	for i, n := 0, rapid.IntRange(0, 3).Draw(t, "nemail"); i < n; i++ {
 		p.Emails = append(p.Emails, text.Draw(t, "email"))
 	}
